@@ -577,6 +577,34 @@ def skipped_when_all_empty(m, value_substr):
     return not (set(wr) & r1.blocks) and bool(set(wr) & r2.blocks)
 
 
+def present_iff_any_nonempty(m, wbb):
+    """None when the write in block wbb is reached exactly when the Sapling spends or the outputs
+    are non-empty; otherwise the counterexample. The emptiness tests are grouped by what they test
+    (so two tests of the outputs answer alike) and every combination of answers is explored."""
+    import assume as S
+    import itertools
+    b = m.b
+    groups = {}
+    for bb, t in b.calls():
+        if t.callee.indirect is None and t.callee.target_p().endswith("::is_empty") and \
+                not b.blocks[bb].cleanup and t.args:
+            d = m.describe(m.du.origin(t.args[0]))
+            kind = "spends" if "shielded_spends" in d else "outputs" if "shielded_outputs" in d else None
+            if kind:
+                groups.setdefault(kind, []).append(bb)
+    if sorted(groups) != ["outputs", "spends"]:
+        return "the emptiness tests of the spends and of the outputs were not both found (%s)" % sorted(groups)
+    for se, oe in itertools.product((True, False), repeat=2):
+        cr = {bb: S.B(se) for bb in groups["spends"]}
+        cr.update({bb: S.B(oe) for bb in groups["outputs"]})
+        r = S.explore(b, 0, {}, call_results=cr)
+        if (wbb in r.blocks) != (not (se and oe)):
+            return "with spends %s and outputs %s it is %s" % (
+                "empty" if se else "non-empty", "empty" if oe else "non-empty",
+                "written" if wbb in r.blocks else "skipped")
+    return None
+
+
 def compare(chk, rule, key, got, want, m=None):
     if got is None:
         chk.fail(rule, key + "/missing", "digest function for %s not found" % key)
@@ -585,7 +613,8 @@ def compare(chk, rule, key, got, want, m=None):
         chk.fail(rule, key + "/states", "%s uses %d hash states %s, the table has %d %s"
                  % (key, len(got), [p for p, _ in got], len(want), [p for p, _ in want]))
         return
-    for (gp, gw), (wp, ww) in zip(got, want):
+    hashers_ = m.hashers() if m is not None else []
+    for j, ((gp, gw), (wp, ww)) in enumerate(zip(got, want)):
         k2 = "%s/%s" % (key, wp)
         if gp != wp:
             chk.fail(rule, k2 + "/personalisation", "%s: personalisation %r where the table has %r" % (key, gp, wp))
@@ -603,10 +632,12 @@ def compare(chk, rule, key, got, want, m=None):
                     ok_all = False
                     why = why or "value %d is %s, the table has the choice %s: %s" % (i + 1, gv[:200], wv, mis)
             elif wg == ("!ANY",):
-                if gv != wv or not (gg or (m is not None and skipped_when_all_empty(m, wv))):
+                bbs = hashers_[j]["bbs"] if j < len(hashers_) else []
+                cex = "no block" if i >= len(bbs) else present_iff_any_nonempty(m, bbs[i])
+                if gv != wv or cex:
                     ok_all = False
-                    why = why or "value %d is %s under %s, expected %s, skipped only when spends and outputs " \
-                        "are both empty" % (i + 1, gv, gg, wv)
+                    why = why or "value %d is %s under %s, expected %s, skipped exactly when spends and " \
+                        "outputs are both empty (%s)" % (i + 1, gv, gg, wv, cex)
             elif gv != wv or tuple(gg) != tuple(wg):
                 ok_all = False
                 why = why or "value %d is %s%s, the table has %s%s" % (
